@@ -2367,7 +2367,9 @@ func (resp *Response) writeBodyStream(w *bufio.Writer, sendBody bool) (err error
 			if err == nil && sendBody {
 				err = writeBodyChunked(w, resp.bodyStream)
 			}
-			if err == nil {
+			if err == nil && sendBody {
+				// The trailer section ends the chunked body; when the body is
+				// skipped (HEAD, 204, 304) nothing may follow the header.
 				err = resp.Header.writeTrailer(w)
 			}
 		}
